@@ -491,6 +491,31 @@ def run_spectral(ctx, orders):
         chk(f"liouville_to_stinespring:order={order}", lambda: qi.liouville_to_stinespring(liou.copy(), order=order, nqubits=n), via_st)
 
 
+def run_unitaries_probe(run):
+    """kraus_to_unitaries is outside the proof (scipy minimize); the vectorisation order is an internal
+    convention, so the probabilities found must not depend on it ('test')."""
+    import qibo.quantum_info as qi
+    U1, U2 = qi.random_unitary(2, seed=1), qi.random_unitary(2, seed=2)
+    ks = [((0,), np.sqrt(0.5) * np.eye(2, dtype=complex)), ((0,), np.sqrt(0.3) * U1), ((0,), np.sqrt(0.2) * U2)]
+    res = {}
+    for order in ("row", "column"):
+        with warnings.catch_warnings():
+            warnings.simplefilter("ignore")
+            try:
+                _, probs = qi.kraus_to_unitaries(ks, order=order)
+                res[order] = np.array(probs)
+            except Exception as e:  # noqa: BLE001
+                run.find(f"kraus_to_unitaries:order={order}:raises", f"{type(e).__name__}: {e}", {"order": order})
+                return
+    run.case({"kraus_to_unitaries": "row vs column"}, True)
+    if not np.allclose(res["row"], res["column"], atol=1e-3):
+        run.find("kraus_to_unitaries:order=column",
+                 f"kraus_to_unitaries on a mixture of unitaries gives probabilities {np.round(res['row'], 4).tolist()} with order='row' "
+                 f"but {np.round(res['column'], 4).tolist()} with order='column' (negative / not a distribution): the candidate "
+                 "superoperators are built by _individual_kraus_to_liouville(...) without forwarding `order`, so a column-order target "
+                 "is fitted with row-order candidates", {"row": res["row"].tolist(), "column": res["column"].tolist()})
+
+
 # ----------------------------------------------------------------------------- driver
 def coq_check(run, ctxs, jobs=8):
     """evaluate, per case, model==impl and spec(impl) inside Coq; returns {(ci, idx): (eq, spec)}"""
@@ -644,7 +669,10 @@ def main(run):
                         "are compared with the un-normalised ones after scaling)",
                         "eigh/svd/minimize are oracles: choi_to_kraus is proved only under the contract of eigh"]
     run.not_proved += ["*_to_kraus / *_to_stinespring through eigh, kraus_to_unitaries (scipy minimize): test only",
-                       "link_product for general subscripts (only the channel patterns 'ij,jk->ik' and '@')"]
+                       "link_product for general subscripts (only the channel patterns 'ij,jk->ik' and '@')",
+                       "pauli_acts / chi_ok as general theorems (the Pauli-Liouville and chi matrices act as the channel): covered by the "
+                       "exact Spec check of every run and by path_independence_bounded, not by a theorem for every n",
+                       "path independence for every n (proved: bounded instance check n<=2 plus the general index theorems)"]
     ok, pa = vcore.static_assumptions("C17/Props")
     for name in vcore.props_theorems("C17/Props.v"):
         run.oblige(name, ok and name in pa, "static theorem")
@@ -656,6 +684,7 @@ def main(run):
             run.refuted.append(name[:-len("_refuted")])
     run.checker_cmds.append("make -C coq theories/C17/Props.vo")
     check_plan(run, plan(run.tier, rng))
+    run_unitaries_probe(run)
     return run.finish(level="proof", rule=RULE)
 
 
@@ -670,5 +699,5 @@ def replay(run, data):
     orders = (order,) if order in ORDERS else ORDERS
     ctxs = check_plan(run, [(c, orders, [po], True, True, True)], only_key=rp.get("function"))
     want = data["key"]
-    run.findings = [f for f in run.findings if f.key == want]
+    run.findings = [f for f in run.findings if f.key == want][:1]
     return run.finish(rule="replay of one recorded case")
